@@ -13,6 +13,10 @@ class GzipMiddleware(Middleware):
 
     def request(self, next, request):
         resp = next()
+        if not hasattr(resp, 'vary'):
+            # e.g., HTTPExceptions, which are BaseResponses without the
+            # header-descriptor mixins used below
+            return resp
         # TODO: shortcut redirects/304s/responses without content?
         resp.vary.add('Accept-Encoding')
         if resp.content_encoding or not request.accept_encodings['gzip']:
